@@ -56,9 +56,50 @@ def selected(path, s):
     raise ValueError(t)
 
 
+def _path_sel(rng, p):
+    """One of the spellings of 'the sub-tree at path p'."""
+    p = list(p)
+    k = rng.choice(["tuple", "dict", "str"] if len(p) == 1 else ["tuple", "dict"])
+    if k == "str":
+        return {"t": "str", "a": p[0]}
+    if k == "tuple":
+        return {"t": "tuple", "p": p}
+    s = {"t": "all"}
+    for a in reversed(p):
+        s = {"t": "dict", "d": {a: s}}
+    return s
+
+
+def gen_template(rng, paths):
+    """Compositions in which complements / intersections / unions meet *inside* a sub-tree: the cases
+    where the remainder of a match matters (a complement selects below an address it does not match)."""
+    deep = [p for p in paths if len(p) >= 2] or list(paths)
+    p = rng.choice(deep)
+    prefix = p[: rng.randint(1, max(1, len(p) - 1))]
+    nots = {"t": "not", "s": _path_sel(rng, p)}
+    pre = _path_sel(rng, prefix)
+    q = rng.choice(paths)
+    kind = rng.choice(["not_and_prefix", "prefix_and_not", "not_or_other", "not_not", "demorgan_and", "demorgan_or", "not_alone"])
+    if kind == "not_and_prefix":
+        return {"t": "and", "l": nots, "r": pre}
+    if kind == "prefix_and_not":
+        return {"t": "and", "l": pre, "r": nots}
+    if kind == "not_or_other":
+        return {"t": "or", "l": {"t": "and", "l": nots, "r": pre}, "r": _path_sel(rng, q)}
+    if kind == "not_not":
+        return {"t": "not", "s": {"t": "not", "s": _path_sel(rng, p)}}
+    if kind == "demorgan_and":
+        return {"t": "not", "s": {"t": "and", "l": _path_sel(rng, p), "r": _path_sel(rng, q)}}
+    if kind == "demorgan_or":
+        return {"t": "not", "s": {"t": "or", "l": _path_sel(rng, p), "r": _path_sel(rng, q)}}
+    return nots
+
+
 def gen_sel(rng, paths, depth=2, atoms_only=False):
     """Random selection expression over the address alphabet of `paths`."""
     paths = [tuple(p) for p in paths] or [("a",)]
+    if depth >= 1 and not atoms_only and rng.random() < 0.3:
+        return gen_template(rng, paths)
     r = rng.random()
     if depth <= 0 or atoms_only or r < 0.45:
         k = rng.choice(["str", "str", "tuple", "tuple", "all", "none", "dict", "prefix"])
